@@ -570,6 +570,8 @@ class RewriteGoalProof(StateItem):
     def __init__(self, parent, goal: Expr, *, begin: Goal):
         if not goal.is_equals():
             raise AssertionError("RewriteGoalProof: goal is not an equality.")
+        if not begin.goal.is_equals():
+            raise AssertionError("RewriteGoalProof: initial equation is not an equality.")
 
         self.parent = parent
         self.goal = goal
@@ -578,6 +580,8 @@ class RewriteGoalProof(StateItem):
 
     def is_finished(self):
         conds = self.ctx.get_conds()
+        if not self.begin.last_expr.is_equals():
+            return False
         f1 = normalize(self.begin.last_expr.lhs, conds) == normalize(self.goal.lhs, conds)
         f2 = normalize(self.begin.last_expr.rhs, conds) == normalize(self.goal.rhs, conds)
         return f1 and f2
